@@ -180,6 +180,19 @@ pub fn resolve(sub: &Sub, r: usize, c: usize, store: &MStore) -> Result<Vec<usiz
   }
 }
 
+/// Index form with a cardinality mark: list-like forms that select exactly one position are
+/// spelled V1/R1/RX1/X1/M1 — Mech dispatches those to other kernels than the multi-element forms.
+pub fn form_card(sub: &Sub, r: usize, c: usize, s: &MStore) -> String {
+  let one = |ix: &Ix, n: usize| -> String {
+    let base = ix.form().to_string();
+    match ix {
+      Ix::S(_) | Ix::All => base,
+      _ => match resolve(&Sub::One(ix.clone()), n, 1, s) { Ok(p) if p.len() == 1 => format!("{}1", base), _ => base },
+    }
+  };
+  match sub { Sub::One(a) => one(a, r * c), Sub::Two(a, b) => format!("{},{}", one(a, r), one(b, c)) }
+}
+
 pub fn eval(e: &Expr, s: &MStore) -> Ev {
   let var = |n: &str| -> Result<SV, Ev> { s.get(n).map(|b| b.v.clone()).ok_or(Ev::Fail("undefined-var".into())) };
   match e {
@@ -365,7 +378,7 @@ impl Model {
         };
         if let Some(v) = self.writable(name, &combo0) { return v; }
         let cur = &s[name];
-        let combo = format!("assign|{}<-{}", class_of(&cur.v), src_form(&val));
+        let combo = format!("assign|{}<-{}:{}", class_of(&cur.v), e.form(), src_form(&val));
         let same_kind = match (&cur.v, &val) {
           (SV::Mat(k1, ..), SV::Mat(k2, ..)) => k1 == k2,
           (a, b) => a.kind_tag() == b.kind_tag(),
@@ -394,7 +407,7 @@ impl Model {
         if let Some(v) = self.writable(name, &combo0) { return v; }
         let cur = &s[name];
         let (ek, r, c, d) = match &cur.v { SV::Mat(ek, r, c, d) => (ek, *r, *c, d), _ => return self.either_unknown(name, "index-into-non-matrix", format!("idx-assign|{}", class_of(&cur.v))) };
-        let combo = format!("idx-assign|mat:{}|{}|{}", ek, sub.form(), src_form(&val));
+        let combo = format!("idx-assign|mat:{}|{}|{}:{}", ek, form_card(sub, r, c, s), e.form(), src_form(&val));
         let pos = match resolve(sub, r, c, s) {
           Ok(p) => p,
           Err(Some(k)) => return self.must_err(&format!("f5-index-oob@{}", k.min(4)), combo),
@@ -455,7 +468,7 @@ impl Model {
         let cur = &s[name];
         match sub {
           None => {
-            let combo = format!("op-assign:{}|{}<-{}", bop.name(), class_of(&cur.v), src_form(&val));
+            let combo = format!("op-assign:{}|{}<-{}:{}", bop.name(), class_of(&cur.v), e.form(), src_form(&val));
             let defined = match (&cur.v, &val) {
               (a, b) if a.is_scalar() && b.is_scalar() => a.kind_tag() == b.kind_tag(),
               (SV::Mat(ek, ..), b) if b.is_scalar() => *ek == b.kind_tag(),
@@ -480,7 +493,7 @@ impl Model {
           }
           Some(sub) => {
             let (ek, r, c, d) = match &cur.v { SV::Mat(ek, r, c, d) => (ek, *r, *c, d), _ => return self.either_unknown(name, "index-into-non-matrix", format!("idx-op-assign|{}", class_of(&cur.v))) };
-            let combo = format!("idx-op-assign:{}|mat:{}|{}|{}", bop.name(), ek, sub.form(), src_form(&val));
+            let combo = format!("idx-op-assign:{}|mat:{}|{}|{}:{}", bop.name(), ek, form_card(sub, r, c, s), e.form(), src_form(&val));
             let pos = match resolve(sub, r, c, s) {
               Ok(p) => p,
               Err(Some(k)) => return self.must_err(&format!("f5-index-oob@{}", k.min(4)), combo),
@@ -526,7 +539,7 @@ impl Model {
         let cur = &s[name];
         match &cur.v {
           SV::Record(fields) => {
-            let combo = format!("field-assign|record|{}", src_form(&val));
+            let combo = format!("field-assign|record|{}:{}", e.form(), src_form(&val));
             match fields.iter().position(|(n, _, _)| n == field) {
               None => self.either_unknown(name, "f6-no-such-field", combo),
               Some(i) => {
@@ -540,7 +553,7 @@ impl Model {
             }
           }
           SV::Table(rows, cols) => {
-            let combo = format!("field-assign|table|{}", src_form(&val));
+            let combo = format!("field-assign|table|{}:{}", e.form(), src_form(&val));
             match cols.iter().position(|(n, _, _)| n == field) {
               None => self.either_unknown(name, "f6-no-such-column", combo),
               Some(i) => match &val {
@@ -570,7 +583,7 @@ impl Model {
         let cur = &s[name];
         match &cur.v {
           SV::Tuple(el) => {
-            let combo = format!("tuple-assign|tuple|{}", src_form(&val));
+            let combo = format!("tuple-assign|tuple|{}:{}", e.form(), src_form(&val));
             if *pos < 1 || *pos > el.len() { return self.must_err("f5-tuple-index-oob", combo); }
             if el[*pos - 1].kind_tag() != val.kind_tag() { return self.either_unknown(name, "f6-source-kind", combo); }
             let mut ne = el.clone();
@@ -615,7 +628,10 @@ impl Model {
           Ev::Unsure => self.either_same("unsure-read", combo),
           Ev::Val(val) => {
             let flat = matches!(e, Expr::VarIdx(_, sub) if !matches!(sub, Sub::One(Ix::S(_)) | Sub::Two(Ix::S(_), Ix::S(_))));
-            let combo = match e { Expr::VarIdx(_, sub) => format!("read|var-idx|{}", sub.form()), _ => combo };
+            let combo = match e {
+              Expr::VarIdx(n, sub) => match s.get(n).map(|b| &b.v) { Some(SV::Mat(ek, r, c, _)) => format!("read|var-idx|mat:{}|{}", ek, form_card(sub, *r, *c, s)), _ => format!("read|var-idx|{}", sub.form()) },
+              _ => combo,
+            };
             let mut v = self.verdict(Must::Ok, After::Same, combo);
             v.ret = Some(val);
             v.ret_flat = flat;
